@@ -88,6 +88,13 @@ Record store := mkStore {
 
 Definition store_of (g : reg) : store := mkStore (g_blobs g) (g_mans g) (g_tags g) (g_other g).
 
+(* the referrers tag of a subject: absent, or pointing to an index the client wrote (tag schema) *)
+Definition index_state (g : reg) (tag : str) (old : option (str * list desc)) : Prop :=
+  match old with
+  | None => lookup tag (g_tags g) = None
+  | Some (od, l) => lookup tag (g_tags g) = Some od /\ lookup od (g_mans g) = Some (mt_index, gen_index l)
+  end.
+
 Section Spec.
   Variable H : str -> str.
   Variable parse_mt : str -> option str.
@@ -267,6 +274,19 @@ Section Spec.
     | OPreds _ => p_referrers p = true
     | OBlobResolve _ | OBlobFetchRef _ => True
     end.
+
+  (* invariant of the registry states a well-formed history reaches: manifests are stored under
+     their digest, are decodable, have a parsable media type and fit MaxMetadataBytes; the
+     sibling repository's blobs are stored under their digest *)
+  Definition sinv (st : store) : Prop :=
+    (forall d mt c, lookup d (t_mans st) = Some (mt, c) ->
+        d = H c /\ sub_ok c /\ parse_mt mt = Some mt /\ len c <= limit) /\
+    (forall d c, lookup d (t_other st) = Some c -> d = H c).
+  Definition inv (g : reg) : Prop := sinv (store_of g).
+  (* the part of [inv] that does not depend on who indexes subjects: what the tag-schema paths need
+     (a registry WITHOUT the Referrers API stores manifests with a subject as plain content) *)
+  Definition minv (g : reg) : Prop :=
+    forall d mt c, lookup d (g_mans g) = Some (mt, c) -> d = H c /\ parse_mt mt = Some mt /\ len c <= limit.
 
   (* every operation of the history is well-formed for the store it meets *)
   Fixpoint wf_hist (st : store) (os : list op) : Prop :=
